@@ -14,7 +14,8 @@ from harness.core import Case, ImplResult, frac
 
 PID = 'C01'
 LEAN_MODULES = ['ThermoVerif.Props.C01']
-RULE = ('operation histories (mix_from / Stream.sum / split_to / separate_out / Stream.copy_flow / MultiStream.copy_flow / scale / * /) over 3-8 real '
+RULE = ('operation histories (mix_from / Stream.sum / split_to / separate_out with energy_balance False (~70 %) and the default True '
+        '(~30 %), vle / conserve_phases mixes, the operator forms + += -= unary- k* *=, Stream.copy_flow / MultiStream.copy_flow / scale / * /) over 3-8 real '
         'streams on five real property packages built per case from 6 bundled chemicals (a permuted superset, two permuted '
         'sub-packages, and re-orderings of the superset and of the first sub-package, so that one receiver package is reached '
         'by the same chemical set in different orders; ~12% of cases use non-superset packages to reach the undefined-chemical '
@@ -31,7 +32,16 @@ RULE = ('operation histories (mix_from / Stream.sum / split_to / separate_out / 
         'so every comparison is exact; a case is non-trivial when at least one operation moved a non-zero amount; '
         'distinct = distinct op sequences')
 ASSUMPTIONS = [
-    'energy_balance=False everywhere (T, P and the energy balance belong to C02)',
+    'about 70 % of the mix / sum / split / separate calls are made with energy_balance=False, about 30 % (and all operator '
+    'forms a+b, a+=b, a-=b) with the library default energy_balance=True; T, P and the enthalpy values themselves belong to '
+    'C02.  Two things the energy balance does to a stream are decided by the thermodynamic models and are taken from the code '
+    'as parameters of the protocol line (not computed by the model): (i) the g<->l relabelling of a single-phase result by '
+    'the enthalpy setter (`ph:<i>:<letter>` token, accepted by the model only as such a flip, flows untouched), (ii) whether '
+    'an enthalpy solve failed (exception from the thermodynamic code, or caught inside the call): then the rest of the case is '
+    'not compared (`skip=numerics`), the oracle still judges the material of that line',
+    'vle=True and conserve_phases=True are exercised as the last operation of a case with totals only (the model predicts the '
+    'per-chemical totals, not the phase layout a flash or the phases setter produces; after a flash totals are compared to '
+    '1e-9 relative, the split g + l = total being exact only to rounding); flash failures are not C01 failures',
     'a property package is modelled as the list of its CAS numbers; `chemicals is other_chemicals` is equality of package ids; '
     'chemical groups / aliases shared between packages are not generated',
     'sparse rows are modelled by their dense image; stored zeros do not occur on the dyadic alphabet (C09 covers the sparse invariants)',
@@ -39,10 +49,11 @@ ASSUMPTIONS = [
     'receiver itself; they are read-only there and modelled as the row read before the write.  Flow proxies, linked streams and '
     'views as receivers / outlets / copy operands are not generated; other aliasing is the same stream in several roles',
     'the model describes the code with fixes_proposed/C01-1..C01-8, C10-2 and C12-1 applied; until they are committed the '
-    'check reports the corresponding failing inputs; likewise fixes_proposed/C01-9..C01-14 (the six former known findings)',
+    'check reports the corresponding failing inputs; likewise fixes_proposed/C01-9..C01-14 (the six former known findings) and '
+    'C01-15 (copy_like of an own phase view)',
+    'the whole line is compared: per-chemical totals, kind, phase tuple and per-phase rows of every stream',
     'MultiStream.copy_flow refuses a multi-phase source with another phase tuple (ValueError, like its same-chemicals '
     'requirement): that refusal is outside the quantifier, silent loss or duplication is not',
-    'an empty single-phase outlet whose phase a multi-phase feed lacks is not generated (its conversion is C12-3)',
     'after a Python exception the case ends: the state left behind by a failed call is not compared',
 ]
 TRUSTED = ['Lean 4.33 kernel', 'correspondence harness harness/props/c01.py + lean/Driver/C01.lean',
@@ -62,6 +73,15 @@ def setup():
     tmo = tmo_
     warnings.simplefilter('ignore')
     CHEMS = [tmo.Chemical(n, cache=True) for n in NAMES]
+    # hypothesis monitor: did an enthalpy setter give up during a call?  (Stream.mix_from then re-phases the receiver and
+    # mixes a second time inside a bare `except:`; that path is decided by the thermodynamic models.)
+    for cls in (tmo.Stream, tmo.MultiStream):
+        prop = cls.__dict__['H']
+        def fset(self, H, _orig=prop.fset):
+            try: return _orig(self, H)
+            except Exception:
+                HFAIL[0] += 1; raise
+        setattr(cls, 'H', prop.setter(fset))
 
 
 def budget(tier):
@@ -78,6 +98,18 @@ def err_name(e):
     if n == 'UndefinedChemicalAlias': return 'undefined-chemical'
     if n == 'UndefinedPhase': return 'undefined-phase'
     return 'rejected'
+
+
+BOOKKEEPING = {'_stream.py', '_multi_stream.py', 'indexer.py', 'sparse.py', '_phase.py', '_chemicals.py', 'network.py',
+               'c01.py', '_thermal_condition.py'}
+
+
+def is_numerics(e):
+    """the exception comes out of the thermodynamic machinery (enthalpy solve of the energy balance), not out of the
+    material bookkeeping: not C01's subject (C02/C07)"""
+    import os, traceback
+    frames = traceback.extract_tb(e.__traceback__)
+    return bool(frames) and os.path.basename(frames[-1].filename) not in BOOKKEEPING
 
 
 def swapc(p):
@@ -212,21 +244,29 @@ class Universe:
 
     def apply(self, line):
         t = line.split(' ')
+        eb = t[-1] == 'eb'                  # the library default energy_balance=True
+        if eb: t = t[:-1]
+        flag = t[-1] if t[-1] in ('vle', 'cp') else None
+        if flag: t = t[:-1]
         op = t[0]
         S = self.streams
         if op == 'pkg':
             ids = [int(x) for x in t[1].split(',')]
             th = tmo.Thermo(tmo.Chemicals([CHEMS[c] for c in ids]))
             self.pkgs.append((th, ids))
+            if len(self.pkgs) == 1: tmo.settings.set_thermo(th)     # `a + b` builds its result on the default package
             return 'ok'
         if op == 'new':
             rows = [[Fraction(x) for x in r.split(',')] for r in t[4].split(';')]
             order = [int(x) for x in t[5][1:].split(',')] if len(t) > 5 else None
             self.new_stream(int(t[1]), t[2], t[3], rows, order)
         elif op == 'mix':
-            S[int(t[1])].mix_from([self.ref(x) for x in parse_refs(t[2])], energy_balance=False)
+            S[int(t[1])].mix_from([self.ref(x) for x in parse_refs(t[2])], energy_balance=eb,
+                                  vle=(flag == 'vle'), conserve_phases=(flag == 'cp'))
+            if flag:       # totals only; the case ends here (after a flash the split g + l = total is exact only to rounding)
+                return ('approx ' if flag == 'vle' else '') + self.show().split(' ph=')[0]
         elif op == 'sum':
-            s = tmo.Stream.sum([S[i] for i in parse_ids(t[2])], None, self.pkgs[int(t[1])][0], energy_balance=False)
+            s = tmo.Stream.sum([S[i] for i in parse_ids(t[2])], None, self.pkgs[int(t[1])][0], energy_balance=eb)
             S.append(s)
         elif op == 'split':
             if t[4] == 's':
@@ -234,9 +274,9 @@ class Universe:
             else:
                 import numpy as np
                 sp = np.array([float(Fraction(x)) for x in t[5].split(',')])
-            S[int(t[1])].split_to(S[int(t[2])], S[int(t[3])], sp, energy_balance=False)
+            S[int(t[1])].split_to(S[int(t[2])], S[int(t[3])], sp, energy_balance=eb)
         elif op == 'sep':
-            S[int(t[1])].separate_out(self.ref(t[2]), energy_balance=False)
+            S[int(t[1])].separate_out(self.ref(t[2]), energy_balance=eb)
         elif op == 'copy':
             if t[3] == '*': ids = ...
             elif t[3].startswith('='): ids = NAMES[int(t[3][1:])]
@@ -255,6 +295,18 @@ class Universe:
             S.append(S[int(t[1])] * float(Fraction(t[2])))
         elif op == 'div':
             S.append(S[int(t[1])] / float(Fraction(t[2])))
+        elif op == 'iadd':
+            s = S[int(t[1])]; s += S[int(t[2])]
+        elif op == 'add':
+            S.append(S[int(t[1])] + S[int(t[2])])
+        elif op == 'isub':
+            s = S[int(t[1])]; s -= S[int(t[2])]
+        elif op == 'neg':
+            S.append(-S[int(t[1])])
+        elif op == 'rmul':
+            S.append(float(Fraction(t[2])) * S[int(t[1])])
+        elif op == 'imul':
+            s = S[int(t[1])]; s *= float(Fraction(t[2]))
         elif op == 'empty':
             S[int(t[1])].empty()
         else:
@@ -274,7 +326,17 @@ def oracle(U, line, before, exc):
     """Property-oracle verdict for one executed op.  `before` = snapshot before the op, `exc` = the exception or None.
     Returns (signature suffix, text) or None.  Only the real objects are looked at."""
     t = line.split(' ')
+    eb = t[-1] == 'eb' or t[0] in DEFAULTS
+    if t[-1] == 'eb': t = t[:-1]
+    flag = t[-1] if t[-1] in ('vle', 'cp') else None
+    if flag: t = t[:-1]; U.tags.add('in:mix:' + flag)
+    if t[0] != {'iadd': 'mix', 'add': 'sum', 'isub': 'sep', 'neg': 'mul', 'rmul': 'mul', 'imul': 'scale'}.get(t[0], t[0]):
+        U.tags.add('in:operator:' + t[0])
+        t = {'iadd': lambda: ['mix', t[1], f'{t[1]},{t[2]}'], 'add': lambda: ['sum', '0', f'{t[1]},{t[2]}'],
+             'isub': lambda: ['sep', t[1], t[2]], 'neg': lambda: ['mul', t[1], '-1'],
+             'rmul': lambda: ['mul', t[1], t[2]], 'imul': lambda: ['scale', t[1], t[2]]}[t[0]]()
     op = t[0]
+    if eb: U.tags.add('in:eb:' + op)
     S = U.streams
     poisoned = U.poisoned()
     sop = 'mix' if op == 'sum' else op
@@ -302,12 +364,16 @@ def oracle(U, line, before, exc):
         live = [e for e in E if not e['empty']]
         other = any(e['pkg'] is not rlist for e in live)
         newph = rmulti and any(not resolvable(rphases, p) for e in live for p, _ in e['rows'])
-        if rmulti and len(live) == 1: cfg = 'M<-one-nonempty-inlet'
+        if eb and len(live) == 1 and op == 'mix' and live[0].get('view_of') == r: cfg = 'M<-own-phase-view.copy_like'
+        elif eb and len(live) == 1: cfg = ('M' if rmulti else 'S') + '<-one-nonempty-inlet.copy_like'
+        elif rmulti and len(live) == 1: cfg = 'M<-one-nonempty-inlet'
         elif newph: cfg = 'M<-new-phase'
         elif not rmulti and any(e['multi'] and e['pkg'] is not rlist for e in live):
             cfg = 'S<-M.other-package'
         else: cfg = ('M' if rmulti else 'S') + ('<-other-package' if other else '<-same-package')
         inq = all(set(e['pkg']) <= rpk for e in E)
+        if eb: cfg += '.eb'
+        if flag: cfg += '.' + flag
         U.tags.add(f'in:mix:{cfg}')
         nself = sum(1 for x in toks if op == 'mix' and x == str(r))
         if nself: U.tags.add('in:mix:receiver-among-inlets' + ('-twice' if nself > 1 else ''))
@@ -322,6 +388,7 @@ def oracle(U, line, before, exc):
         after = now(r)
         for c in set(itertools.chain(after, *[e['tot'] for e in E])):
             want = sum((e['tot'].get(c, 0) for e in E), Fraction(0))
+            if flag == 'vle' and abs(float(after.get(c, 0)) - float(want)) <= 1e-12 + 1e-9 * abs(float(want)): continue
             if after.get(c, 0) != want:
                 return (f'mix:{cfg}:totals', f'after `{line}` chemical {NAMES[c]}: receiver holds {after.get(c, 0)} but the inlets sum to {want}')
         return None
@@ -338,11 +405,12 @@ def oracle(U, line, before, exc):
         fph = [p for p, _ in fb['rows']]
         other = (ab['pkg'] is not fb['pkg']) or (bb['pkg'] is not fb['pkg'])
         anyM = ab['multi'] or bb['multi']
+        if eb: anyM = anyM or fb['multi']        # with the energy balance a multi-phase feed converts both outlets
         if fb['multi'] and anyM:
             # outlets must be able to take the feed's phases (their own content is overwritten)
             for o in (ab, bb):
                 for p, r in o['rows']:
-                    if (not o['multi'] or any(r)) and not resolvable(fph, p): return None
+                    if any(r) and not resolvable(fph, p): return None
         if not fb['multi'] and anyM: cfg = 'S->M-outlet'
         elif fb['multi'] and not anyM: cfg = 'M->S,S' + ('.other-package' if other else '')
         else:
@@ -358,6 +426,7 @@ def oracle(U, line, before, exc):
                     else: continue
                     break
         inq = set(fb['pkg']) <= set(ab['pkg']) and set(fb['pkg']) <= set(bb['pkg'])
+        if eb: cfg += '.eb'
         U.tags.add(f'in:split:{cfg}'); U.tags.add('in:split:' + ('scalar' if t[4] == 's' else 'vector'))
         if f in (a, b): U.tags.add('in:split:feed-is-outlet')
         if exc is not None:
@@ -386,6 +455,7 @@ def oracle(U, line, before, exc):
         else:
             cfg = ('M' if xb['multi'] else 'S') + '-' + ('M' if yb['multi'] else 'S') + ('.other-package' if other else '') \
                 + ('.same-phases' if xb['multi'] and yb['multi'] and xph == [p for p, _ in yb['rows']] else '')
+        if eb: cfg += '.eb'
         U.tags.add(f'in:sep:{cfg}')
         if '.' in t[2]:
             U.tags.add('in:sep:phase-view' + ('-of-itself' if yb.get('view_of') == x and not yb['empty'] else ''))
@@ -514,20 +584,48 @@ def safe(U):
     return True
 
 
+HFAIL = [0]
+DEFAULTS = ('iadd', 'add', 'isub')       # operator forms: always the library defaults
+
+
 def run_ops(ops):
     U = Universe()
     outs, failures, dead, moved = [], [], False, False
+    model_in = []
     for i, line in enumerate(ops):
+        model_in.append(line)
         if dead:
-            outs.append('dead'); continue
+            outs.append('skip=numerics' if outs and outs[-1] == 'skip=numerics' else 'dead'); continue
         before = U.snapshot() if not line.startswith(('pkg', 'new')) else None
+        HFAIL[0] = 0
         try:
             o = U.apply(line); exc = None
         except ErrorInOp:
             raise
         except Exception as e:
             o = 'err=' + err_name(e); exc = e; dead = True
+            if line.split(' ')[0] in DEFAULTS or line.endswith(' eb') or ' vle' in line:
+                if is_numerics(e):
+                    # the enthalpy solve gave up: the case ends here without a verdict on this line
+                    U.tags.add('eb:numerics-skip')
+                    outs.extend(['skip=numerics'] * (len(ops) - i))
+                    model_in.extend(ops[i + 1:])
+                    break
+        if exc is None and (' vle' in line or ' cp' in line) and line.startswith('mix'):
+            dead = True
+        if exc is None and HFAIL[0]:
+            # the enthalpy solve failed and was handled inside the call (re-phase and re-mix, or worse): the material result
+            # is still judged by the oracle below, but the model does not follow that path
+            U.tags.add('eb:H-setter-failed-inside-call')
+            o = 'skip=numerics'; dead = True
         outs.append(o)
+        t0 = line.split(' ')
+        if exc is None and (t0[0] in DEFAULTS or t0[-1] == 'eb') and t0[0] in ('mix', 'sum', 'sep', 'iadd', 'add', 'isub'):
+            # `self.H = H` may relabel a single-phase result g <-> l (temperature solve failed in the current phase):
+            # thermodynamic numerics, handed to the model as a parameter of this line
+            j = len(U.streams) - 1 if t0[0] in ('sum', 'add') else int(t0[1])
+            if not U.is_multi(U.streams[j]) and U.streams[j].phase in 'gl':
+                model_in[-1] = line + f' ph:{j}:{U.streams[j].phase}'
         if before is not None:
             if exc is None and not moved:
                 after = U.snapshot()
@@ -536,25 +634,43 @@ def run_ops(ops):
             v = oracle(U, line, before, exc)
             if v is not None:
                 failures.append({'signature': v[0], 'op_index': i, 'what': v[1]})
-    return U, outs, failures, moved
+    return U, outs, failures, moved, model_in
 
 
 def run_impl(case: Case) -> ImplResult:
-    U, outs, failures, moved = run_ops(case.ops)
+    U, outs, failures, moved, model_in = run_ops(case.ops)
     kinds = sorted({l.split(' ')[0] for l in case.ops if not l.startswith(('pkg', 'new'))})
     tags = list(kinds) + [o for o in outs if o.startswith('err=')] + sorted(U.tags)
-    return ImplResult(model_in=list(case.ops), outs=outs, failures=failures, tags=tags,
+    return ImplResult(model_in=model_in, outs=outs, failures=failures, tags=tags,
                       nontrivial=(tuple(case.ops) if moved else None))
 
 
-def canon(line):
-    i = line.find(' ph=')
-    return line if i < 0 else line[:i]
-
-
 def compare(impl_line, model_line):
-    """only what the property talks about: the per-chemical totals of every stream, and the error class"""
-    return canon(impl_line) == canon(model_line)
+    """the whole observable state: per-chemical totals of every stream (what the property talks about), the error class,
+    and also each stream's kind, phase tuple and per-phase rows, so that the model's phase logic (expansion, case-variant
+    merging, phases setter) is tied to the code directly and not only through totals"""
+    if impl_line == 'skip=numerics': return True
+    if impl_line.startswith('approx '):
+        return approx_equal(impl_line[7:], model_line)
+    return impl_line == model_line
+
+
+def parse_tot(line):
+    if not line.startswith('tot='): return None
+    out = []
+    for strm in line[4:].split('|'):
+        out.append({int(x.split(':')[0]): Fraction(x.split(':')[1]) for x in strm.split(',') if x})
+    return out
+
+
+def approx_equal(a, b, rtol=1e-9, atol=1e-12):
+    A, B = parse_tot(a), parse_tot(b)
+    if A is None or B is None or len(A) != len(B): return a == b
+    for x, y in zip(A, B):
+        for c in set(x) | set(y):
+            u, v = float(x.get(c, 0)), float(y.get(c, 0))
+            if abs(u - v) > atol + rtol * max(abs(u), abs(v)): return False
+    return True
 
 
 def disagree_signature(case, res, first):
@@ -658,12 +774,19 @@ def with_views(rng, U, idxs, prob):
     return out
 
 
+def EB(rng, p=0.3):
+    """~30 % of the mix / sum / split calls are made with the library default energy_balance=True"""
+    return ' eb' if rng.random() < p else ''
+
+
 def gen_op(rng, U):
     S = U.streams
     n = len(S)
     idx = list(range(n))
-    kind = rng.choices(['mix', 'sum', 'split', 'sep', 'sepmix', 'copy', 'scale', 'mul', 'div', 'idiv', 'empty'],
-                       [30, 5, 22, 8, 10, 14, 4, 3, 2, 1, 1])[0]
+    kind = rng.choices(['mix', 'sum', 'split', 'sep', 'sepmix', 'copy', 'scale', 'mul', 'div', 'idiv', 'empty',
+                        'iadd', 'add', 'isubmix', 'neg', 'rmul', 'imul', 'mixvle', 'mixcp'],
+                       [30, 5, 22, 8, 10, 14, 3, 2, 2, 1, 1,
+                        4, 3, 3, 1, 2, 2, 1, 2])[0]
     single = [i for i in idx if not U.is_multi(S[i])]
     if kind == 'mix':
         r = rng.choice(idx)
@@ -678,7 +801,18 @@ def gen_op(rng, U):
         # also expands the receiver's phases, MaterialIndexer.mix_from clears the row before it reads it (reported, not checked)
         toks = [x if not (x.startswith(f'{r}.') and x.split('.')[1] not in S[r].phases) else f'{r}.{rng.choice(S[r].phases)}'
                 for x in toks]
-        return [f'mix {r} {",".join(toks) if toks else "-"}']
+        return [f'mix {r} {",".join(toks) if toks else "-"}' + EB(rng)]
+    if kind in ('mixvle', 'mixcp'):
+        # vle=True / conserve_phases=True: totals only, ends the case.  For the flash everything is gas/liquid.
+        gl = [i for i in idx if all(p in 'gl' for p in S[i].phases)] if kind == 'mixvle' else idx
+        if not gl: return [f'scale {rng.choice(idx)} 1']
+        r = rng.choice(gl)
+        rp = set(U.pkg_of(S[r]))
+        good = [i for i in gl if set(U.pkg_of(S[i])) <= rp]
+        k = rng.choice([2, 2, 3, 3, 4])
+        ins = [rng.choice(good) for _ in range(k)]
+        if rng.random() < 0.3: ins[rng.randrange(k)] = r
+        return [f'mix {r} {",".join(map(str, ins))} ' + ('vle' if kind == 'mixvle' else 'cp') + EB(rng, 0.6), 'END']
     if kind == 'sum':
         p = rng.randrange(len(U.pkgs))
         k = rng.choice([0, 1, 2, 2, 3])
@@ -686,7 +820,7 @@ def gen_op(rng, U):
         good = [i for i in idx if set(U.pkg_of(S[i])) <= pp]
         pool = good if (good and rng.random() < 0.93) else idx
         ins = [rng.choice(pool) for _ in range(k)]
-        return [f'sum {p} {",".join(map(str, ins)) if ins else "-"}']
+        return [f'sum {p} {",".join(map(str, ins)) if ins else "-"}' + EB(rng)]
     if kind == 'split':
         f = rng.choice(idx)
         fp = set(U.pkg_of(S[f]))
@@ -702,14 +836,7 @@ def gen_op(rng, U):
         a = rng.choice(pool); b = rng.choice(pool)
         if a == b and rng.random() < 0.9 and len(pool) > 1:
             b = rng.choice([i for i in pool if i != a])
-        if U.is_multi(S[f]) and (U.is_multi(S[a]) or U.is_multi(S[b])):
-            # an *empty* single-phase outlet whose phase the feed lacks: the conversion to the feed's phases is
-            # C12's subject (fixes_proposed/C12-3 changes it), not generated here
-            fph = S[f].phases
-            for o in (S[a], S[b]):
-                if not U.is_multi(o) and o.isempty() and not resolvable(fph, o.phase):
-                    return [f'scale {f} 1']
-        return [f'split {f} {a} {b} {split_arg(rng, len(U.pkg_of(S[f])))}']
+        return [f'split {f} {a} {b} {split_arg(rng, len(U.pkg_of(S[f])))}' + EB(rng)]
     if kind == 'sep':
         x = rng.choice(idx); y = rng.choice(idx)
         multi = [i for i in idx if U.is_multi(S[i])]
@@ -727,7 +854,8 @@ def gen_op(rng, U):
         if len(good) < 1: return [f'sep {r} {r}']
         a = rng.choice(good); b = rng.choice(good)
         tb = with_views(rng, U, [b], 0.3)[0]
-        return [f'mix {r} {a},{tb}', f'sep {r} {tb}']
+        e = EB(rng)
+        return [f'mix {r} {a},{tb}' + e, f'sep {r} {tb}' + e]
     if kind == 'copy':
         multi = [i for i in idx if U.is_multi(S[i])]
         if multi and (not single or rng.random() < 0.4):
@@ -753,6 +881,22 @@ def gen_op(rng, U):
             php = '*' if r < 0.6 else (rng.choice(S[d].phases) if r < 0.92 else rng.choice(PHASES))
             return [f'copy {d} {s} {ids} {rm} {ex} {php}']
         return [f'copy {d} {s} {ids} {rm} {ex}']
+    if kind in ('iadd', 'add', 'isubmix'):
+        # operator forms; the result of `a + b` lives on the default package (package 0)
+        tgt = set(U.pkgs[0][1]) if kind == 'add' else None
+        a = rng.choice(idx)
+        ap = tgt if tgt is not None else set(U.pkg_of(S[a]))
+        good = [i for i in idx if set(U.pkg_of(S[i])) <= ap]
+        if kind == 'add':
+            if not good: return [f'neg {a}']
+            a = rng.choice(good)
+        b = rng.choice(good) if (good and rng.random() < 0.93) else rng.choice(idx)
+        if kind == 'iadd': return [f'iadd {a} {b}']
+        if kind == 'add': return [f'add {a} {b}']
+        return [f'iadd {a} {b}', f'isub {a} {b}'] if a != b else [f'iadd {a} {b}']
+    if kind == 'neg': return [f'neg {rng.choice(idx)}']
+    if kind in ('rmul', 'imul'):
+        return [f'{kind} {rng.choice(idx)} {fr(rng.choice([Fraction(0), Fraction(1, 2), Fraction(2), Fraction(3), Fraction(3, 2)]))}']
     if kind in ('scale', 'mul'):
         return [f'{kind} {rng.choice(idx)} {fr(rng.choice([Fraction(0), Fraction(1, 2), Fraction(1, 4), Fraction(2), Fraction(3), Fraction(3, 2), Fraction(1)]))}']
     if kind in ('div', 'idiv'):
@@ -780,6 +924,7 @@ def gen_random(rng, nstreams, nops):
     for _ in range(nops):
         new = gen_op(rng, U)
         for l in new:
+            if l == 'END': return Case(ops, {})
             ops.append(l)
             try: U.apply(l)
             except ErrorInOp: raise
@@ -878,9 +1023,10 @@ def make_grid_case(rng, spec):
             if rng.random() < 0.5:
                 ops.append(gen_new(rng, pkgs, 0, 'S', rng.choice(PHASES))); ins.append(nstreams(ops) - 1)
         if selfin: ins.insert(rng.randrange(len(ins) + 1), 0)
-        ops.append(f'mix 0 {",".join(map(str, ins))}')
+        e = EB(rng, 0.35)
+        ops.append(f'mix 0 {",".join(map(str, ins))}' + e)
         # and separate the last inlet out again
-        if ins[-1] != 0: ops.append(f'sep 0 {ins[-1]}')
+        if ins[-1] != 0: ops.append(f'sep 0 {ins[-1]}' + e)
     elif kind == 'split':
         _, fk, ak, bk, rel, sp = spec
         fpkg = 0 if rel == 'same' else rng.choice([1, 2, 3, 4])
@@ -892,7 +1038,7 @@ def make_grid_case(rng, spec):
         arg = {'0': 's 0', '1': 's 1', 'half': 's 1/2'}.get(sp)
         if sp == 'vec': arg = 'v ' + ','.join(fr(rng.choice([Fraction(1, 2), Fraction(1, 4), Fraction(3, 4), Fraction(1, 8)])) for _ in range(n))
         if sp == 'vec01': arg = 'v ' + ','.join(rng.choice(['0', '1']) for _ in range(n))
-        ops.append(f'split 0 1 2 {arg}')
+        ops.append(f'split 0 1 2 {arg}' + EB(rng, 0.4))
     elif kind == 'sep':
         _, xk, yk, rel, phs, ye = spec
         ypkg = 0 if rel == 'same' else rng.choice([1, 2, 3, 4])
@@ -992,6 +1138,10 @@ def generate(rng, tier, index, nworkers):
     b = budget(tier)
     grid = grid_cases(rng)
     reps = 1 if tier == 'quick' else 6
+    # classes that the plain grid reaches only once: multi-phase copy with equal phase tuples, multi-phase feed onto
+    # single-phase outlets
+    thin = [sp for sp in grid if (sp[0] == 'mcopy' and sp[1] == 'Msame') or (sp[0] == 'split' and sp[1:4] == ('M', 'S', 'S'))]
+    grid = grid + thin * 3
     for rep in range(reps):
         for j, spec in enumerate(grid):
             if j % nworkers == index:
@@ -1060,6 +1210,7 @@ def search(case, rng, budget_s):
         if ok:
             for _ in range(rng.randrange(0, 4)):
                 for l in gen_op(rng, U):
+                    if l == 'END': break
                     ops.append(l)
                     try: U.apply(l)
                     except ErrorInOp: raise
